@@ -1,12 +1,57 @@
 (* C07 Leader completeness
    Full-strength statement: C07_statement (Cluster/Statements.v; "later leader" = leader of a term above the
-   term in which the entry was known committed).  Proved so far: the second half at cluster level
-   (C07_leader_never_overwrites: the log of the winner of a term only grows as long as its persistent term is
-   that term - while it leads and after a crash and restart) and the node-level theorems below; the first half
-   (a new leader already holds every committed entry) is not proved and is decided on every run by the lock-step
+   term in which the entry was known committed).  Proved at cluster level, for every execution without
+   membership changes and without snapshots: C07_leader_completeness (= C07_statement: the first half, a leader
+   of a later term holds every entry that was known committed), C07_acknowledged_entries_in_later_leaders (the
+   core: an entry acknowledged by a majority in its own term is in the log of every leader of a later term) and
+   C07_leader_never_overwrites (the second half).  These three use excluded middle (Coq.Logic.Classical,
+   axiom `classic`).  With snapshots the statement is not proved and is decided on every run by the lock-step
    co-simulation together with the monitor run at the first observation of every new leader. *)
-From RaftV Require Import Cluster.Statements Proofs.RVSpec Proofs.AESpec Proofs.ElectSpec Proofs.CommitSpec Proofs.ReplySpec Proofs.LeaderLog.
+From RaftV Require Import Cluster.World Cluster.Statements Proofs.RVSpec Proofs.AESpec Proofs.ElectSpec Proofs.CommitSpec Proofs.ReplySpec Proofs.LeaderLog.
+From RaftV Require Import Proofs.ConfStatic Proofs.LCCore Proofs.LCReach Proofs.LCFinal Proofs.LCStatement.
 Open Scope N_scope.
+
+(* C07 first half, cluster level, every schedule without membership changes and snapshots (any number of nodes,
+   delivery order, loss, duplication, delay, crash at any storage write, restart; no bound on terms, log
+   lengths or steps): an entry that some node holds at or below its commit index while in a term <= T is in the
+   log of every node that is leader of a term > T at any later point of the execution. *)
+Theorem C07_leader_completeness : C07_statement.
+Proof. exact leader_completeness. Qed.
+Print Assumptions C07_leader_completeness.
+
+(* the core of the argument: an entry acknowledged (AppendEntries success responses of its own term, or being
+   the winner of that term) by a majority of the voters is in the log of every leader of a later term *)
+Theorem C07_acknowledged_entries_in_later_leaders : forall ids boot et ld ls ej L,
+  static ls = true -> nosnap ls = true ->
+  let w := run (init_world ids boot et ld) ls in
+  is_entry w ej -> committed (bootconf boot) (w_calls w) ej ->
+  In L (w_nodes w) -> n_role L = Leader -> e_term ej < n_term L -> In ej (n_log L).
+Proof. exact committed_in_later_leaders. Qed.
+Print Assumptions C07_acknowledged_entries_in_later_leaders.
+
+(* not vacuous: a schedule (3 nodes) in which node 0 is elected in term 1, replicates, commits and applies the
+   operation 7 at index 3 (first point: c07_ls1), then node 1 applies it and is elected in term 2 (second point) *)
+Definition c07_ls1 : list label :=
+  [LTick 4; LElection 0; LElectionRun 0; LTask 0; LTask 0; LDeliver 0; LReply 0; LElectionRun 0; LTask 0; LTask 0;
+   LDeliver 1; LReply 1; LDeliver 2; LReply 2; LTask 0; LTask 0; LDeliver 4; LDeliver 5;
+   LReply 4; LReply 5; LCommit 0; LApply 0; LSubmit 0 OReplicated 7; LTask 0; LTask 0;
+   LDeliver 6; LDeliver 7; LReply 6; LReply 7; LCommit 0; LApply 0; LTask 0; LTask 0].
+Definition c07_ls2 : list label :=
+  [LDeliver 8; LDeliver 9; LApply 1; LTick 20; LElection 1; LElectionRun 1; LTask 1; LTask 1;
+   LDeliver 11; LReply 11; LElectionRun 1; LTask 1; LTask 1; LDeliver 13; LReply 13].
+Definition c07_view (w : world) :=
+  map (fun n => (n_role n, n_frozen n, n_term n, n_commit n, n_applies n, map (fun e => (e_index e, e_term e)) (n_log n))) (w_nodes w).
+Example C07_cluster_not_vacuous :
+  static (c07_ls1 ++ c07_ls2) = true /\ nosnap (c07_ls1 ++ c07_ls2) = true /\
+  let w1 := run (init_world [0; 1; 2] [0; 1; 2] 4 2) c07_ls1 in
+  let w2 := run w1 c07_ls2 in
+  c07_view w1 = [(Leader, false, 1, 3, [(3, 1, 7)], [(0, 0); (1, 1); (2, 1); (3, 1)]);
+                 (Follower, false, 1, 2, [], [(0, 0); (1, 1); (2, 1); (3, 1)]);
+                 (Follower, false, 1, 2, [], [(0, 0); (1, 1); (2, 1); (3, 1)])] /\
+  c07_view w2 = [(Leader, false, 1, 3, [(3, 1, 7)], [(0, 0); (1, 1); (2, 1); (3, 1)]);
+                 (Leader, false, 2, 3, [(3, 1, 7)], [(0, 0); (1, 1); (2, 1); (3, 1); (4, 2)]);
+                 (Follower, false, 2, 3, [], [(0, 0); (1, 1); (2, 1); (3, 1)])].
+Proof. split; [reflexivity|]. split; [reflexivity|]. cbn zeta. split; vm_compute; reflexivity. Qed.
 
 (* C07 "...and never overwrites it", cluster level, every schedule without membership changes and snapshots:
    between any two points of an execution, the log of a node that leads at the first point has only been
